@@ -304,3 +304,78 @@ def c17():
         "unchanged, and the continuation (encode/decode/reconstruct/needed/create/destroy) succeeds; "
         "non-trivial = injected failures that actually fired" % nrand,
         ["TLC", "allocation ledger", "ASan/UBSan", "failing stubs installed by the harness"], exhaustive=False)
+
+
+def c15():
+    chk = Check("C15")
+    thorough = chk.tier == "thorough"
+    from . import checks_wire as cw
+    # (1) guarded mode: every caller input on read-only pages that end at a PROT_NONE page (plain build)
+    cmds = roundtrip_cmds(chk, [BE_XOR, BE_RS, BE_ISAL_VAND, BE_ISAL_CAUCHY], thorough, mode=1 | 4 | 8 | 16)
+    if not thorough:
+        cmds = cmds[chk.seed % 4::4]          # guard-page placement costs an mmap per fragment: a quarter of the space per quick run
+    i = 0
+    for ti, (k, m, hd) in enumerate(XOR_TABLES[::4]):      # beyond tolerance as well (C02's space, sampled)
+        i += 1
+        cmds.append(sweep_cmd(BE_XOR, k, m, hd, 2, len_classes(BE_XOR, k)[4], _seed_of(chk, i), hd, k + m, 30, 1 | 8))
+    for (k, m) in [(4, 2), (2, 4), (10, 4), (1, 1)]:
+        i += 1
+        cmds.append(sweep_cmd(BE_RS, k, m, m, 2, len_classes(BE_RS, k)[5], _seed_of(chk, i), 0, k + m, 60, 1 | 8))
+    f1, e1, r1 = run_sweeps("plain", cmds, "C15-guard", guard=True)
+    v1 = validate("TraceCodes", f1)
+    _collect(chk, v1, ["C15", "fault", "create failed", "encode failed"])
+    c1 = v1.counts or [0] * 12
+    # metadata query / validation / encode on guarded inputs
+    wc = ["layout"]
+    for ci, (be, k, m, hd) in enumerate(cw.wire_configs(thorough)):
+        for ct in (1, 2):
+            wc.append(cw.hdr_cmd(be, k, m, hd, ct, [37, 5, 100][ci % 3], _seed_of(chk, ci), 1 | 2 | 8 | 16 | 32 | 64, 30))
+            for L in (0, 1, 3 * align(be, k) + 1, 5000):
+                wc.append(cw.enc_cmd(be, k, m, hd, ct, L, _seed_of(chk, ci * 10 + L), 2))
+    f2, e2, r2 = run_sweeps("plain", wc, "C15-guardwire", guard=True)
+    v2 = validate("TraceWire", f2, max_lines=600)
+    _collect(chk, v2, ["C15", "C09 validation modified", "fault", "create failed", "encode failed"])
+    c2 = v2.counts or [0] * 14
+    # (2) history independence: same (configuration, data) encoded in a fresh process, after random histories,
+    #     with other instances alive, after injected failures, and from a second thread
+    cfgs = H.GOOD_CFGS[:8]
+    lens = [0, 1, 77, 4099]
+    def probes(slotbase, threaded):
+        out = []
+        for ci, (be, k, m, hd, w) in enumerate(cfgs):
+            s = slotbase + ci
+            out.append("create %d %d %d %d %d %d 2" % (s, be, k, m, hd, w))
+            for L in lens:
+                out.append("enc_digest s%d %d %d %d" % (s, L, 1000 + ci * 10 + L % 7, threaded))
+        return out
+    scripts = []
+    scripts.append("\n".join(["reset"] + probes(10, 0)))                                            # fresh process
+    nh = 40 if thorough else 10
+    for j in range(nh):
+        hist = H.random_history(_seed_of(chk, 300 + j), 120, faults=(j % 2 == 1), nslots=5)
+        # keep the random history's instances alive: drop its wind-down, then probe, then reset
+        scripts.append("\n".join(hist + probes(10, j % 3 == 2)))
+    files, ev_, rs_ = run_sweeps("asan", scripts, "C15-pure", merge=False)
+    allf = os.path.join(core.WORK, "C15-pure", "all.ndjson")
+    with open(allf, "w") as o:
+        for f in files:
+            o.write(open(f).read())
+    v3 = validate("TracePure", [allf], max_lines=10**9)
+    _collect(chk, v3, ["C15", "fault"])
+    c3 = v3.counts or [0] * 4
+    m1 = tlc("MC_Libec", "MC_Libec_registry", workers=4, timeout=600, tag="C15")
+    chk.add_tlc(m1, "MC_Libec_registry")
+    chk.cov["distinct_nontrivial"] = c1[1] + c1[5] + c2[4] + c3[1]
+    chk.parts.update({"guarded_decode_events": c1[1], "guarded_reconstruct_events": c1[5], "guarded_header_events": c2[4],
+                      "guarded_encode_events": c2[1], "purity_encodes": c3[0], "purity_encodes_compared_with_an_earlier_history": c3[1],
+                      "histories_preceding_the_probes": nh})
+    chk.sample({"purity_probe": "enc_digest s10 77 1007 0 after: " + " ; ".join(H.random_history(_seed_of(chk, 300), 12)[:10])})
+    return _finish_codes(chk,
+        "(1) decode/reconstruct (C01-C03 scenario space incl. beyond tolerance), get_fragment_metadata, is_invalid_fragment(_header), "
+        "decode/reconstruct on mutated headers and encode, with every caller input placed on PROT_READ pages that end exactly at a "
+        "PROT_NONE page: a write or an over-read is a Fault event, which no specification action explains; inputs also digest-compared "
+        "before/after.  (2) the same (configuration, data) encoded in a fresh process, after %d different seeded API histories (with "
+        "other instances alive, after injected backend failures) and from a second thread running concurrently with another encode: "
+        "TLC keeps seen[(configuration, data)] and requires identical digests of all fragment bytes; "
+        "non-trivial = guarded events + compared encodes" % nh,
+        ["TLC", "page protection (mprotect) as the monitor for stray accesses", "FNV digest over all fragment bytes"], exhaustive=False)
